@@ -221,7 +221,7 @@ func (p *parser) parseExpr() Expr {
 			for p.accept(",") {
 				names = append(names, p.ident())
 			}
-			typ := p.ident()
+			typ := p.typeName()
 			for _, n := range names {
 				q.Vars = append(q.Vars, Binder{n, typ})
 			}
@@ -256,6 +256,30 @@ func (p *parser) parseExpr() Expr {
 		return &ECond{c, a, b}
 	}
 	return c
+}
+
+// typeName parses a binder type: an identifier, optionally qualified (pkg.T) and
+// prefixed by * or [].
+func (p *parser) typeName() string {
+	prefix := ""
+	for {
+		if p.accept("*") {
+			prefix += "*"
+			continue
+		}
+		if p.accept("[") {
+			p.expect("]")
+			prefix += "[]"
+			continue
+		}
+		break
+	}
+	name := p.ident()
+	if p.peek().kind != "id" && p.peek().text == "." {
+		p.next()
+		name += "." + p.ident()
+	}
+	return prefix + name
 }
 
 func (p *parser) ident() string {
